@@ -9,7 +9,7 @@ import (
 
 // NotApplicable lists the properties (or none) that are not claimed at all.
 var NotApplicable = map[string]string{
-	"C15": "not claimed: SetFloat/Float/Float32/Float64 compute inside math/big.Float, whose numeric code is not encoded, and SetFloat64's scaling by a 2**n Decimal needs pow2's precision-limited products; symbolic float64 arithmetic is outside the solvers' reach here (DESIGN.md sections 3 and 7)",
+	"C15": "not claimed: SetFloat/Float/Float32/Float64 compute inside math/big.Float, whose numeric code is not encoded, and SetFloat64's scaling by a 2**n Decimal needs pow2's precision-limited products; symbolic float64 arithmetic is outside the solvers' reach here (DESIGN.md sections 3 and 7). Only the special-value dispatch of SetFloat64/SetFloat (+-0, +-Inf, NaN, independence of the previous receiver) is decided, under C04 and C10 (harness H_C04_setfloat); the numeric statement of C15 is not",
 }
 
 const defaultTechnique = "bounded symbolic execution of go/ssa (own executor gosym: concrete shapes, symbolic scalars) + SMT (z3, Int encoding with explicit wrap-around); counterexamples replayed natively on both builds"
